@@ -119,6 +119,9 @@ class CallMixin:
             bound[k] = v
         for n in names:
             if n not in bound:
+                if n.startswith("_ghost") and getattr(self, "cur_state", None) is not None and n in self.cur_state.env:
+                    bound[n] = self.cur_state.env[n]  # a ghost parameter is passed on from the caller's own ghost parameter of the same name
+                    continue
                 if n in con.defaults:
                     bound[n] = con.defaults[n](self)
                 else:
@@ -229,7 +232,8 @@ class CallMixin:
         for label, f in con.ensures(post):
             self.fact(st, f)
         # write back the receiver / mutable params
-        if isinstance(recv.ty, TObj) and recv_node is not None and con.modifies:
+        if isinstance(recv.ty, TObj) and recv_node is not None and con.modifies and isinstance(recv_node, (ast.Name, ast.Attribute, ast.Subscript)):
+            # (a receiver that is a temporary, e.g. Point()._deserialize_from_list(row), has nowhere to be written back to)
             self.assign_to(recv_node, post_env[recv_name], st, check_owned=False)
         for a in con.modifies:
             if a in bound and a != recv_name and not (isinstance(recv.ty, TObj) and a in recv.t):
@@ -348,8 +352,9 @@ class CallMixin:
             w = z3.Function(fresh_name("wit"), sort_of(ty.elem), z3.IntSort())
             self.fact(st, forall([j], z3.Implies(z3.And(0 <= j, j < l_len(v.t)), z3.Select(s, l_at(v.t, j))),
                                     patterns=[l_at(v.t, j)]))
+            marks = [S.Tr(w(x))] + ([S.Tr(x)] if ty.elem == TInt else [])  # trigger markers (Tr is universally true)
             self.fact(st, forall([x], z3.Implies(z3.Select(s, x),
-                                                    z3.And(0 <= w(x), w(x) < l_len(v.t), l_at(v.t, w(x)) == x)),
+                                                    z3.And(0 <= w(x), w(x) < l_len(v.t), l_at(v.t, w(x)) == x, *marks)),
                                     patterns=[z3.Select(s, x)]))
             return Val(sty, s)
         if isinstance(ty, TDict):
@@ -453,23 +458,42 @@ class CallMixin:
         return self.sorted_perm(v, self._keyfn(node, st), st, node)
 
     def sorted_of_set(self, v, node, st):
-        """sorted(set): a duplicate-free list holding exactly the set's elements, ascending (strings: in the uninterpreted order str_lt)"""
+        """sorted(a_set[, key=lambda x: (x is None, x)]): a duplicate-free list holding exactly the set's elements, ascending
+        (strings in the uninterpreted order str_lt; with that key, None comes last)"""
         ety = v.ty.elem
-        if ety not in (TInt, TStr):
+        key = [k.value for k in node.keywords if k.arg == "key"]
+        none_last = False
+        if key:
+            lam = key[0]
+            ok = isinstance(lam, ast.Lambda) and len(lam.args.args) == 1 and isinstance(lam.body, ast.Tuple) and len(lam.body.elts) == 2 \
+                and isinstance(lam.body.elts[0], ast.Compare) and isinstance(lam.body.elts[0].ops[0], ast.Is) and isinstance(lam.body.elts[1], ast.Name) and lam.body.elts[1].id == lam.args.args[0].arg
+            if not ok or ety != TOpt(TStr):
+                raise Unsupported("sorted() of a set with this key", node)
+            none_last = True
+        elif ety not in (TInt, TStr):
             raise Unsupported("sorted() of a set of %s" % ety, node)
         lty = TList(ety)
-        R = z3.Const(fresh_name("sortedset"), sort_of(lty))
-        pos = z3.Function(fresh_name("spos"), sort_of(ety), z3.IntSort())
+        bnd = list(self.bound)  # under a comprehension the sorted list and the position function are Skolem functions of its bound variables
+        if bnd:
+            R = z3.Function(fresh_name("sortedset"), *([b_.sort() for b_ in bnd] + [sort_of(lty)]))(*bnd)
+        else:
+            R = z3.Const(fresh_name("sortedset"), sort_of(lty))
+        posf = z3.Function(fresh_name("spos"), *([b_.sort() for b_ in bnd] + [sort_of(ety), z3.IntSort()]))
+        pos = lambda e: posf(*(bnd + [e]))
         x = z3.Const(fresh_name("x"), sort_of(ety))
         a, b = z3.Int(fresh_name("a")), z3.Int(fresh_name("b"))
         n = l_len(R)
-        lt = (lambda p, q: p < q) if ety == TInt else S.str_lt
+        if none_last:
+            lt = lambda p, q: z3.Or(z3.And(o_is_some(p), o_is_none(q)), z3.And(o_is_some(p), o_is_some(q), S.str_lt(o_val(p), o_val(q))))
+        else:
+            lt = (lambda p, q: p < q) if ety == TInt else S.str_lt
         self.fact(st, n >= 0)
         self.fact(st, forall([x], z3.Select(v.t, x) == z3.And(0 <= pos(x), pos(x) < n, l_at(R, pos(x)) == x), patterns=[z3.Select(v.t, x)]))
+        self.fact(st, forall([x], S.Tr(pos(x)), patterns=[pos(x)]))
         self.fact(st, forall([a], z3.Implies(z3.And(0 <= a, a < n), z3.And(z3.Select(v.t, l_at(R, a)), pos(l_at(R, a)) == a)), patterns=[l_at(R, a)]))
         self.fact(st, forall([a, b], z3.Implies(z3.And(0 <= a, a < b, b < n), lt(l_at(R, a), l_at(R, b))), patterns=[z3.MultiPattern(l_at(R, a), l_at(R, b))]))
         st.ghost = dict(st.ghost)
-        st.ghost["last_sorted_set"] = dict(R=R, pos=pos, set=v)
+        st.ghost["last_sorted_set"] = dict(R=R, pos=pos, posf=posf, set=v, bound=list(self.bound))
         return Val(lty, R)
 
     # ------------------------------------------------------ container methods
@@ -604,8 +628,13 @@ class CallMixin:
         if len(args) < 2:
             self.hazard("KeyError", z3.Select(d_dom(recv.t), k.t), node, "dict.pop")
         new = Val(recv.ty, d_mk(recv.ty, z3.Store(d_dom(recv.t), k.t, False), d_val(recv.t)))
+        had, old = z3.Select(d_dom(recv.t), k.t), z3.Select(d_val(recv.t), k.t)
         self._mutate(recv_node, new, st, node)
-        return NONE  # the popped value is never used in the subset
+        if len(args) == 2 and args[1].ty == recv.ty.v:
+            return Val(recv.ty.v, z3.If(had, old, args[1].t))  # d.pop(k, default)
+        if len(args) < 2:
+            return Val(recv.ty.v, old)
+        return NONE  # (a default of another type: the popped value is not used in the subset)
 
     def m_dict_update(self, recv, node, st, recv_node):
         (o,) = [self.eval(a, st) for a in node.args]
@@ -760,6 +789,19 @@ class CallMixin:
         self.fact(st, forall([j], z3.Implies(z3.And(0 <= j, j < n), l_at(Z, j) == t_mk(ety, l_at(a.t, j), l_at(b.t, j))), patterns=[l_at(Z, j)]))
         return Val(ty, Z)
 
+    def b_iter(self, node, st):
+        """iter(x): for an object with an __iter__ contract, the sequence it yields (A-gen); for a list, the list"""
+        (a,) = node.args
+        v = self.eval(a, st)
+        if isinstance(v.ty, TList):
+            return v
+        if isinstance(v.ty, TObj):
+            info = S.CLASSES[v.ty.cls]
+            q = "%s.%s.__iter__" % (info["module"], info.get("source_class", v.ty.cls))
+            if q in S.REGISTRY:
+                return self.call_contract(S.REGISTRY[q], [v], {}, node, st, recv_node=a)
+        raise Unsupported("iter() of %s" % v.ty, node)
+
     def b___filter_indices__(self, node, st):
         """ghost only: for the filtering comprehension evaluated last on this path, the source index behind each element of its result"""
         lf = st.ghost.get("last_filter")
@@ -810,6 +852,72 @@ class CallMixin:
         if h:
             return h(self, x, node, st)
         raise Unsupported("int() of %s" % x.ty, node)
+
+    def e_DictComp(self, node, st, hint=None):
+        """{k: f(k) for k in a_list}: one entry per distinct element (the value is a function of the key alone in this form)"""
+        g0 = node.generators[0] if len(node.generators) == 1 else None
+        if g0 is not None and not g0.ifs and isinstance(g0.target, ast.Tuple) and len(g0.target.elts) == 2 and all(isinstance(e, ast.Name) for e in g0.target.elts) \
+                and isinstance(g0.iter, ast.Call) and isinstance(g0.iter.func, ast.Attribute) and g0.iter.func.attr == "items" and not g0.iter.args \
+                and isinstance(node.key, ast.Name) and node.key.id == g0.target.elts[0].id:
+            return self.dictcomp_items(node, g0, st)
+        if len(node.generators) != 1 or node.generators[0].ifs or not isinstance(node.generators[0].target, ast.Name) \
+                or not (isinstance(node.key, ast.Name) and node.key.id == node.generators[0].target.id):
+            raise Unsupported("dict comprehension (only {k: f(k) for k in xs} and {k: f(k, v) for k, v in d.items()})", node)
+        g = node.generators[0]
+        src = self.eval(g.iter, st)
+        if not isinstance(src.ty, TList):
+            raise Unsupported("dict comprehension over %s" % src.ty, node)
+        kty = src.ty.elem
+        k0 = z3.Const(fresh_name("dk"), sort_of(kty))
+        st2 = st.fork()
+        st2.env = dict(st.env)
+        st2.env[g.target.id] = Val(kty, k0)
+        self.bound.append(k0)
+        try:
+            v = self.eval_hint(node.value, st2, hint.v if isinstance(hint, TDict) else None) if hasattr(self, "eval_hint") else self.eval(node.value, st2)
+        finally:
+            self.bound.pop()
+        if v.ty.key in ("EmptySet", "EmptyDict", "EmptyList") and isinstance(hint, TDict):
+            v = self.coerce(v, hint.v, node)
+        st.pc.extend(st2.pc[len(st.pc):])
+        ty = TDict(kty, v.ty)
+        D = z3.Const(fresh_name("dictcomp"), sort_of(ty))
+        pos = z3.Function(fresh_name("dpos"), sort_of(kty), z3.IntSort())
+        n = l_len(src.t)
+        j = z3.Int(fresh_name("j"))
+        self.fact(st, forall([k0], z3.Select(d_dom(D), k0) == z3.And(0 <= pos(k0), pos(k0) < n, l_at(src.t, pos(k0)) == k0), patterns=[z3.Select(d_dom(D), k0)]))
+        self.fact(st, forall([k0], S.Tr(pos(k0)), patterns=[pos(k0)]))
+        self.fact(st, forall([j], z3.Implies(z3.And(0 <= j, j < n), z3.Select(d_dom(D), l_at(src.t, j))), patterns=[l_at(src.t, j)]))
+        self.fact(st, forall([k0], z3.Implies(z3.Select(d_dom(D), k0), z3.Select(d_val(D), k0) == v.t), patterns=[z3.Select(d_val(D), k0)]))
+        return Val(ty, D)
+
+    def dictcomp_items(self, node, g, st):
+        """{k: f(k, v) for k, v in d.items()}: the same keys, each value transformed"""
+        d = self.eval(g.iter.func.value, st)
+        if not isinstance(d.ty, TDict):
+            raise Unsupported("dict comprehension over items() of %s" % d.ty, node)
+        k0 = z3.Const(fresh_name("dk"), sort_of(d.ty.k))
+        st2 = st.fork()
+        st2.env = dict(st.env)
+        st2.env[g.target.elts[0].id] = Val(d.ty.k, k0)
+        st2.env[g.target.elts[1].id] = Val(d.ty.v, z3.Select(d_val(d.t), k0))
+        self.bound.append(k0)
+        self.guards.append(z3.Select(d_dom(d.t), k0))
+        try:
+            v = self.eval(node.value, st2)
+        finally:
+            self.guards.pop()
+            self.bound.pop()
+        st.pc.extend(st2.pc[len(st.pc):])
+        st.ghost = dict(st.ghost)
+        for gk in ("last_sorted_set",):
+            if gk in st2.ghost:
+                st.ghost[gk] = st2.ghost[gk]
+        ty = TDict(d.ty.k, v.ty)
+        R = z3.Const(fresh_name("dictcomp"), sort_of(ty))
+        self.fact(st, d_dom(R) == d_dom(d.t))
+        self.fact(st, forall([k0], z3.Implies(z3.Select(d_dom(d.t), k0), z3.Select(d_val(R), k0) == v.t), patterns=[z3.Select(d_val(R), k0)]))
+        return Val(ty, R)
 
     def e_GeneratorExp(self, node, st):
         # A-gen: a generator argument is consumed without observable interleaving
